@@ -531,7 +531,8 @@ func genAssignPkg(r *Rng, name string, s *GSpec) *apkg {
 				ret = "AL" // identical type, written differently
 			}
 			a.Methods = append(a.Methods, &amethod{
-				Name: fmt.Sprintf("on_%s__s%d", rule.Name, len(seen)-1), Recv: "p *P",
+				// the rule name ends at the FIRST "__"; the rest is free-form and may itself contain "__"
+				Name: fmt.Sprintf("on_%s__s%d%s", rule.Name, len(seen)-1, Pick(r, []string{"", "", "__x", "__a__b", "_y__z"})), Recv: "p *P",
 				Params: sig, Results: []string{ret}, MkExpr: a.RuleMk[ri],
 			})
 		}
